@@ -76,7 +76,7 @@ reg('C10', ['u_iter'],
     'set_offset/with_offset(o): o on a char boundary or beyond the input => cursor at min(o, len) on that boundary, offset field clamped, mode/scanner/line_offsets unchanged, nothing else of the old cursor survives (fm_inv re-established from the arguments only); advance_to(p) with p the end of a peeked match lands exactly on p, absolute (lemma_adv_target_boundary); next_match/peek_n contracts are functions of the abstract state only',
     [ITER, UTF8, WF])
 
-reg('C07', ['u_dfa', 'u_mode', 'u_iter', 'u_sub', 'u_mp', 'u_elim', 'u_glue', 'u_mini', 'u_build'],
+reg('C07', ['u_dfa', 'u_mode', 'u_iter', 'u_sub', 'u_mp', 'u_elim', 'u_glue', 'u_mini', 'u_build', 'u_reg'],
     'spans non-empty (l >= 1), start/end are byte offsets of char indices of the input (boff), start >= previous end (cursor monotone), Some(m) => cursor strictly advances, None => cursor at end and stays there (no_more); absence of panics while scanning = every index/unwrap/overflow/slice-boundary obligation of the functions under contract. '
     'Build side (partial): every index / unwrap / expect / panic! / overflow obligation and the termination of the build functions under contract (closure layer, multi-pattern union, epsilon-elimination worklists, minimizer, lookahead glue: units U-sub, U-mp, U-elim, U-mini, U-glue) is discharged for automata that fit the 32-bit state ids: the four panic!("State .. not found") / "NFA for target state not found" sites and `.expect("NFA not found")` are unreachable, the worklists terminate; in the minimizer every unwrap (find_group, first(), position(), get_mut), every index and the panic! of renumber_states_in_transitions are unreachable and the refinement loop terminates',
     [WF, CLS, ITER, UTF8, 'build side NOT decided for: regex-syntax parser, create_match_char_class (MatchFunction::try_from per registry entry), ScannerBuilder; Nfa::try_from_ast is covered by C02/C15 (unit U-nfa: overflow obligations under th_fits); size preconditions th_fits / mp_fits (automata within 32-bit state ids) are assumed, beyond them ids wrap (C17)'])
@@ -119,7 +119,7 @@ reg('C13', ['u_cache'],
      'ScannerBuilder::build / SimpleScannerBuilder::build (lock + get) are not under contract'],
     technique='Verus function contract + data-structure invariant on the cache map; derive-presence check')
 
-reg('C08', ['u_class'],
+reg('C08', ['u_class', 'u_reg'],
     'membership in a bracketed class is the boolean combination of its items, for every char and every nesting depth: literals (only themselves), ranges (inclusive), nested classes, union, && -- ~~ and negation at item, bracket and binary-operator level, by structural recursion over the imported regex_syntax AST; named items (\\d \\s \\w, [:alpha:], \\p{..}) are uninterpreted leaves that contribute exactly the set they denote alone',
     ['the MatchFn wrapper (Box<dyn Fn(char)->bool>, new/inner) is trusted: `x.inner()(c)` is read as the value of the boxed closure',
      'NOT decided: the ASCII facts about \\d \\s \\w (they are statements about char::is_numeric/is_whitespace/is_alphanumeric and seshat tables) and `.` as a top-level Dot node (MatchFunction::try_from(&Ast) is not under contract)',
@@ -133,7 +133,7 @@ reg('C15', ['u_ast'],
      'MultiPatternNfa::try_from_patterns / parse_regex_syntax (the path from a pattern string to try_from_ast) are not under contract'],
     technique='Verus function contract by structural recursion over the imported AST')
 
-reg('C02', ['u_nfa', 'u_sub', 'u_mp', 'u_elim', 'u_glue', 'u_lang', 'u_mini', 'u_build'],
+reg('C02', ['u_nfa', 'u_sub', 'u_mp', 'u_elim', 'u_glue', 'u_lang', 'u_mini', 'u_build', 'u_reg'],
     'the build pipeline from the pattern text to the minimized automaton, as structural refinement of four specified constructions (Thompson, union, epsilon elimination, quotient). (1) Thompson layer (U-nfa): every NFA combinator and Nfa::try_from_ast produce EXACTLY thompson(ast, registry) (state vector, epsilon and class edges, start/end, {m,n} expansion, leaves registered left to right). '
     '(2) Union (U-mp): MultiPatternNfa::try_from_patterns yields mp_wf: pattern i is the Thompson automaton of its parsed text renumbered to its own id range [mp_off(i), mp_off(i+1)), ranges disjoint and ascending from 1, start transitions and token types in pattern order. '
     '(3) Closure layer (U-sub): Nfa::epsilon_closure returns exactly the reflexive-transitive epsilon closure (sorted, duplicate free), find_state/contains_state/find_nfa/is_accepting_state are the first-match lookups, get_match_transitions returns exactly the (class, target) pairs leaving the given states, for one Nfa and for the union (state 0 fans out to the pattern start states); every panic! in these functions is unreachable. '
